@@ -243,6 +243,7 @@ extern "C" void vp_main() {
         if (g_deleted[k] == 1) vp_assert("deleted-only-after-completion-of-a-self-deleting-request", cnt >= 1 && del);
         bool drained = g_restart[k] && noSignal && cnt == 2 && g_notifyResult[k] == RESULT_ERR_NO_SIGNAL;
         vp_assert("completed-at-most-once", cnt <= 1 || drained);
+        if (cnt >= 1 && g_restart[k]) vp_assert("restart-requeues-the-request", (cnt == 1 && inNext == 1) || drained);
         if (cnt >= 1 && !(cnt == 1 && g_restart[k] && inNext == 1)) {
           if (del) vp_assert("self-deleting-request-deleted-once-and-nowhere-queued", g_deleted[k] == 1 && inNext == 0 && inFin == 0);
           else vp_assert("waited-request-handed-to-the-finished-queue-once", g_deleted[k] == 0 && inNext == 0 && inFin == 1);
